@@ -134,6 +134,10 @@ class FetchAttribute(Parseable[bytes]):
 
     _sec_part_pattern = re.compile(br'([1-9]\d* *(?:\. *[1-9]\d*)*) *(\.)? *')
 
+    #: RFC 5322 field-name: printable US-ASCII except colon. The names are
+    #: echoed in the response, where a quoted string cannot hold CR, LF, NUL.
+    _header_name_pattern = re.compile(br'[\x21-\x39\x3B-\x7E]+')
+
     def __init__(self, attribute: bytes,
                  section: FetchAttribute.Section | None = None,
                  partial: FetchPartial | None = None) -> None:
@@ -268,7 +272,9 @@ class FetchAttribute(Parseable[bytes]):
             header_list_p, buf = List.parse(after, params)
             header_list = frozenset([hdr.value
                                      for hdr in header_list_p.value])
-            if not header_list:
+            if not header_list or not all(
+                    cls._header_name_pattern.fullmatch(hdr)
+                    for hdr in header_list):
                 raise NotParseable(after)
             return cls.Section(section_parts, specifier, header_list), buf
         raise NotParseable(buf)
